@@ -9,6 +9,7 @@ CONSTANTS
   AllowNil = FALSE
   ChainOnly = FALSE
   WriteNewest = FALSE
+  AllowCopy = FALSE
   EarlyStop = FALSE
   Emit = FALSE
 INVARIANTS ViewsOK Compose
